@@ -46,11 +46,25 @@ rule automorphisms loses no result.  A graph-level stream ties these theorems to
 substrate *graph* and the template *graph* are relabelled by explicit random injections f, pi and
 the raw match set of the implementation must be exactly {f . m . pi^-1}, and must equal the Lean
 enumerator `allMonos` on the same graphs.
+
+End-to-end stream (`e2e`).  `C05.statement_concrete` is a theorem about ONE composed term, `concrete max_group (compSearch strict thr)`
+(lean/SynKitModel/ReactorConcrete.lean: pattern preparation, inversion, search, repaired pruning, glue).  Its pieces are tied to /repo by
+their own streams (C03 glue per mapping, C06 search, the PruneSpec gate above); this stream ties the COMPOSITION: the real `SynReactor` in
+implicit mode (`implicit_temp=True, explicit_h=False`, templates without explicit hydrogen) on small (template, substrate) pairs — corpus
+pairs with <= 25 substrate atoms, the hand-written symmetric pairs, the generated symmetric rules — in the pair's own and in the opposite
+direction, strategies all / comp / bt, against the driver command `reactor.results` run on the graphs the reactor really used (its substrate
+graph `reactor.graph.raw`, the template ITS graph it was handed, the direction): (a) the raw match set recorded at `SubgraphSearchEngine`
+== the model's `raw`, as sets; (b) the set of isomorphism classes of `its_list` == that of the model's `its`, on (typesGH without the
+neighbour lists, order pairs), decided by exact equality of the normalised graphs first and by the driver's `match.iso` otherwise; how MANY
+matches the pruning keeps is not compared — what the implementation kept is judged by `pruneSpecB` as in the graph stream.  A mismatch is a
+correspondence break (no failing input) unless one of G1-G5 / PruneSpec fails on the same (template, substrate, direction).
 """
 import json
+import time
 
 from ..core import ROOT, build_and_audit
 from .. import reactor_inv_common as C
+from .. import reactor_common as RC   # graph encoding with every attribute (typesGH, order pairs)
 
 THEOREMS = [
     "SynKit.ReactorInv.allMonos_relabel_host",
@@ -90,6 +104,7 @@ THEOREMS = [
     "SynKit.ReactorInv.compSearch_sub",
     "SynKit.ReactorInv.compSearch_equivariant",
     "SynKit.ReactorInv.C05.statement_concrete",
+    "SynKit.ReactorInv.C05.statement_theReactor",
 ]
 
 EXTRA = "c05_extra.txt"  # hand-written symmetric (template, substrate) pairs: name \t template \t substrate \t invert
@@ -369,6 +384,10 @@ def run(ctx):
         "the glue step is an abstract equivariant function in the Lean statements (hypothesis GlueEquivariant, discharged by C03's model); "
         "at implementation level it is the real SynReactor",
         "harness/reactor_inv_common.py (tables read from RDKit, rewriting, process pool, BaseException time-out)",
+        "e2e stream: Driver/Reactor.lean `reactor.results` runs the composed term of SynKitModel/ReactorConcrete.lean (the object of "
+        "C05.statement_concrete) on the graphs recorded from the real SynReactor (harness/reactor_common.enc_graph: every attribute the "
+        "protocol can carry); iso-classes of ITS graphs by exact equality of normalised graphs, else by the driver's match.iso (Match.isoDecide); "
+        "a VF2 count (<= 300 embeddings) only decides whether a case is small enough to be evaluated",
         "history stream: the template renumbering is self-checked (same molecules; same atoms, charges, hydrogen counts and bonds when read "
         "back through the renaming); a fork of the harness process (which never imports synkit) is the library's initial state",
     ]
@@ -376,6 +395,8 @@ def run(ctx):
         "substrates are SMILES strings; templates are ITS graphs built by rsmi_to_its from mapped reactions (centre or full); no wildcards, partial=False",
         "reactor mode from the template reaction: centre hydrogens explicit -> defaults, none explicit -> implicit_temp=True, explicit_h=False (DESIGN 5a); mixed skipped",
         "embed_threshold left at its default (5000 embeddings): a search that exceeds it returns nothing for every numbering alike",
+        "e2e stream: implicit path only (pattern without explicit hydrogen, no wildcard); (template, substrate) pairs with more than 300 "
+        "embeddings of the pattern are skipped and counted (the model's exhaustive strategy has no threshold)",
     ]
     quick = ctx.quick
     k = 2
@@ -390,7 +411,10 @@ def run(ctx):
         f"+ {k}x{k} (template renumbering x substrate rewriting) variants, strategies all/comp/bt; per-run time-out {timeout}s (skipped, counted).  "
         f"History stream: {90 if quick else 600} histories of 5-12 calls, each history in a fresh interpreter (main chemistry by strata: 6/14 generated "
         "'one of n equivalent ligands reacts' templates, 4/14 other rule-like symmetric templates, 2/14 hand-written pairs, 2/14 corpus; "
-        "a quarter of the histories a 'ladder' of one kind of renumbering), reference call per chemistry in an interpreter of its own.")
+        "a quarter of the histories a 'ladder' of one kind of renumbering), reference call per chemistry in an interpreter of its own.  "
+        f"End-to-end stream: regress e2e cases, every hand-written pair, {40 if quick else 400} generated symmetric rules, a seeded sample of "
+        f"{40 if quick else 1500} corpus cases, each restricted to implicit-mode templates without explicit hydrogen and substrates of <= 25 atoms, "
+        "x {own direction, opposite direction} x {all, comp, bt}: real SynReactor vs driver command reactor.results on the recorded graphs.")
     ctx.nontrivial_rule = "distinct (template, direction, substrate, seeds) with >=1 reaction produced under strategy all"
     build_and_audit(ctx, ["SynKitProofs.Props.C05"], "SynKitProofs/Audit/C05.lean", THEOREMS)
 
@@ -405,9 +429,10 @@ def run(ctx):
     try:
         t = time.time()
         reg = load_regress()
-        run_cases(ctx, pool, [c for c in reg if c.get("stream") != "history"], max(timeout, 30.0), "regress", shrink=False)
+        run_cases(ctx, pool, [c for c in reg if c.get("stream") not in ("history", "e2e")], max(timeout, 30.0), "regress", shrink=False)
         ctx.count("regress_cases", len(reg))
-        run_cases(ctx, pool, extra_cases(ctx, k), timeout, "extra")
+        extra = extra_cases(ctx, k)
+        run_cases(ctx, pool, extra, timeout, "extra")
         stamps["regress+extra"] = round(time.time() - t, 1); t = time.time()
         cases = build_cases(ctx, corpus, infos, 30 if quick else 10**6, k, 40 if quick else 10**6)
         run_cases(ctx, pool, cases, timeout, "corpus")
@@ -431,12 +456,18 @@ def run(ctx):
     # last, so that the draws of the streams above are what they were before this stream existed
     pool = C.Pool()
     try:
-        run_cases(ctx, pool, symrule_cases(ctx, k, 60 if quick else 400), timeout, "symrule")
-        stamps["symrule"] = round(time.time() - t, 1)
+        sym = symrule_cases(ctx, k, 60 if quick else 400)
+        run_cases(ctx, pool, sym, timeout, "symrule")
+        stamps["symrule"] = round(time.time() - t, 1); t = time.time()
+        gates_ok = not ctx.violations
+        # end-to-end: the real SynReactor against the composed Lean reactor (after everything else: its draws change no other stream)
+        e2e_stream(ctx, pool, e2e_select(ctx, [c for c in reg if c.get("stream") == "e2e"], extra, sym, cases,
+                                         40 if quick else 1500, 40 if quick else 400), timeout)
+        stamps["e2e"] = round(time.time() - t, 1)
     finally:
         pool.close()
     ctx.obligation("correspondence: result sets invariant under template renumbering / substrate rewriting / repetition, also inside "
-                   "one interpreter after other calls (histories); comp within all; bt = comp or all; pruning invisible", not ctx.violations)
+                   "one interpreter after other calls (histories); comp within all; bt = comp or all; pruning invisible", gates_ok)
 
 
 # ----------------------------------------------------------------------------- graph-level stream
@@ -540,6 +571,350 @@ def graph_judge(ctx, pool, tasks):
     ctx.obligation("graph-level relabelling: impl raw matches == allMonos, relabelled == image (allMonos_relabel_host/pattern), "
                    "pattern preparation equivariant, result sets equal; kept matches satisfy PruneSpec", bad == 0)
 
+
+
+# ============================================================================= end-to-end: SynReactor vs the composed Lean reactor
+E2E_MAX_ATOMS = 25      # substrate atoms
+E2E_MAX_EMBED = 300     # embeddings of the prepared pattern (VF2 count, a size guard only)
+E2E_MAX_ISO = 240       # match.iso questions per (pair, direction, strategy)
+
+
+def _heavy_atoms(smi):
+    from rdkit import Chem
+
+    C._quiet()
+    m = Chem.MolFromSmiles(smi)
+    return None if m is None else m.GetNumAtoms()
+
+
+def e2e_eligible(case, cache):
+    """Implicit path by construction of the inputs: hydrogen mode 'implicit', no explicit hydrogen atom in the template, small substrate."""
+    if case.get("mode") != "implicit":
+        return False
+    key = case["template"]
+    if key not in cache:
+        info = C.analyze_reaction(case["template"])
+        cache[key] = bool(info.get("ok")) and info.get("mode") == "implicit" and not info.get("has_explicit_h")
+    if not cache[key]:
+        return False
+    n = _heavy_atoms(case["substrate"])
+    return n is not None and n <= E2E_MAX_ATOMS
+
+
+def e2e_select(ctx, regress, extra, sym, corpus_cases, n_corpus, n_sym):
+    """The stream's population, drawn from the populations of the other streams (the same case dicts): regress cases of this stream, every
+    hand-written pair, the first `n_sym` eligible generated symmetric rules, a seeded sample of `n_corpus` eligible corpus cases."""
+    cache = {}
+    out = [dict(c, origin="regress") for c in regress]
+    out += [dict(c, origin="extra") for c in extra if e2e_eligible(c, cache)]
+    out += [dict(c, origin="symrule") for c in sym if e2e_eligible(c, cache)][:n_sym]
+    pool = [c for c in corpus_cases if e2e_eligible(c, cache)]
+    ctx.count("e2e:corpus_cases_eligible", len(pool))
+    out += [dict(c, origin="corpus") for c in (pool if len(pool) <= n_corpus else ctx.rnd.sample(pool, n_corpus))]
+    return out
+
+
+def _e2e_variant(sr, nx, rsmi_to_its, task, label, template):
+    """One writing of the template: a real SynReactor per strategy (implicit mode).  -> {label, template, status, tpl, host, runs}"""
+    import copy
+
+    v = {"label": label, "template": template, "status": "ok", "runs": {}}
+    tpl = rsmi_to_its(template, core=task["core"])
+    v["tpl"] = RC.enc_graph(tpl)
+    for strat in task["strategies"]:
+        calls = []
+        orig = sr.SubgraphSearchEngine
+
+        class Recorder(orig):  # records what the search returned before pruning
+            @staticmethod
+            def find_subgraph_mappings(*a, **k):
+                r = orig.find_subgraph_mappings(*a, **k)
+                calls.append((r, k.get("host"), k.get("pattern")))
+                return r
+
+        reactor = sr.SynReactor(task["substrate"], copy.deepcopy(tpl), invert=task["invert"], strategy=strat,
+                                implicit_temp=True, explicit_h=False)
+        sr.SubgraphSearchEngine = Recorder
+        try:
+            kept = reactor.mappings
+        finally:
+            sr.SubgraphSearchEngine = orig
+        if not calls:
+            v["status"] = "skip:search-not-observed"
+            break
+        raw, h, p = calls[0]
+        if reactor._flag_pattern_has_explicit_H or any(d.get("element") == "*" for _, d in p.nodes(data=True)):
+            v["status"] = "skip:explicit-H-or-wildcard-pattern"
+            break
+        if "host" not in v:
+            host = reactor.graph.raw
+            v["host"] = RC.enc_graph(host)
+            v["host_nodes"], v["pattern_nodes"] = host.number_of_nodes(), p.number_of_nodes()
+            # size guard: number of embeddings of the prepared pattern, counted up to the bound
+            gm = nx.algorithms.isomorphism.GraphMatcher(
+                h, p, node_match=lambda a, b: all(a.get(k) == b.get(k) for k in C.MATCH_NODE_KEYS) and a.get("hcount", 0) >= b.get("hcount", 0),
+                edge_match=lambda a, b: all(a.get(k) == b.get(k) for k in C.MATCH_EDGE_KEYS))
+            n = 0
+            for _ in gm.subgraph_monomorphisms_iter():
+                n += 1
+                if n > E2E_MAX_EMBED:
+                    break
+            if n > E2E_MAX_EMBED:
+                v["status"] = "skip:large"
+                break
+        run = {"raw": sorted(sorted([int(a), int(b)] for a, b in m.items()) for m in raw),
+               "n_kept": len(kept), "its": [RC.enc_graph(g) for g in reactor.its_list], "prune": None}
+        # inputs of the PruneSpec gate (as reactor_inv_common._graph_run): the automorphisms of the rule, enumerated afresh with VF2
+        rcg = reactor.rule.rc.raw
+        keep = list(p.nodes())
+        keepset = set(keep)
+        gm = nx.algorithms.isomorphism.GraphMatcher(
+            rcg, rcg, node_match=lambda a, b: a.get("typesGH") == b.get("typesGH"), edge_match=lambda a, b: a.get("order") == b.get("order"))
+        group = []
+        for sigma in gm.isomorphisms_iter():
+            group.append(sorted([int(x), int(y)] for x, y in sigma.items() if x in keepset))
+            if len(group) > 60:
+                group = None
+                break
+        if group is not None:
+            run["prune"] = {"keep": [int(x) for x in keep], "group": group,
+                            "raw_ordered": [sorted([int(a), int(b)] for a, b in m.items()) for m in raw],
+                            "kept_ordered": [sorted([int(a), int(b)] for a, b in m.items()) for m in kept]}
+        v["runs"][strat] = run
+    return v
+
+
+def e2e_task(task):
+    """Worker entry.  task: {key, templates: [[label, mapped rsmi], ...], core, invert, substrate, strategies, timeout}.  The writings of
+    the template are applied one after the other in THIS interpreter (as written first, then renumbered: a memo keyed on something coarser
+    than the numbering would serve the second call with the first call's data).  Everything the comparison needs comes from the reactor
+    itself: its substrate graph, the template ITS it was handed, the raw matches recorded at SubgraphSearchEngine, the matches it kept,
+    its_list, and (for the PruneSpec gate) the rule automorphisms on the pattern."""
+    t0 = time.time()
+    C._ALARM["fired"] = False
+    out = {"key": task["key"], "status": "ok", "variants": []}
+    try:
+        C.signal.setitimer(C.signal.ITIMER_REAL, float(task.get("timeout", 30)))
+        import networkx as nx
+        import synkit.Synthesis.Reactor.syn_reactor as sr
+        from synkit.IO.chem_converter import rsmi_to_its
+
+        for label, template in task["templates"]:
+            out["variants"].append(_e2e_variant(sr, nx, rsmi_to_its, task, label, template))
+    except C.CaseTimeout:
+        out["status"] = "timeout"
+    except Exception as e:  # noqa: BLE001 - an exception of the implementation is a result, not a crash
+        out["status"] = "error:" + type(e).__name__
+        out["error"] = str(e)[:300]
+    finally:
+        C.signal.setitimer(C.signal.ITIMER_REAL, 0)
+    if C._ALARM["fired"]:
+        out["status"] = "timeout"
+    out["wall"] = round(time.time() - t0, 3)
+    return out
+
+
+def _its_view(g):
+    """An ITS graph as the comparison sees it: `typesGH` without the neighbour lists on the atoms, `order` on the bonds; nodes sorted,
+    bond ends ordered."""
+    def tg(v):
+        try:
+            return {"t": [{"t": side["t"][:4]} for side in v["t"]]}
+        except (TypeError, KeyError):
+            return v
+    return RC.norm_graph({"nodes": [[n, {"typesGH": tg(a.get("typesGH"))}] for n, a in g["nodes"]],
+                          "edges": [[u, v, {"order": a.get("order")}] for u, v, a in g["edges"]]})
+
+
+def _its_invariant(view):
+    lab = {n: json.dumps(a, sort_keys=True) for n, a in view["nodes"]}
+    return json.dumps([sorted(lab.values()),
+                       sorted([json.dumps(a, sort_keys=True)] + sorted([lab.get(u, "?"), lab.get(v, "?")]) for u, v, a in view["edges"])])
+
+
+def _classes(graphs):
+    """exact key -> view of a list of encoded ITS graphs."""
+    out = {}
+    for g in graphs:
+        v = _its_view(g)
+        out.setdefault(json.dumps(v), v)
+    return out
+
+
+ISO_SEL = {"node_keys": ["typesGH"], "edge_keys": ["order"], "hcount": False}
+
+
+E2E_CHUNK = 300        # (template, substrate) pairs per pool / driver round (bounds memory: every record holds all ITS graphs)
+
+
+def e2e_stream(ctx, pool, cases, timeout, tag="e2e"):
+    """Real SynReactor vs `reactor.results` (the composed reactor of SynKitModel/ReactorConcrete.lean), see the module docstring."""
+    import gc
+
+    bad = 0
+    was = gc.isenabled()
+    gc.disable()    # millions of small acyclic JSON objects are alive here: generational collections only cost time
+    try:
+        for a in range(0, len(cases), E2E_CHUNK):
+            bad += _e2e_chunk(ctx, pool, cases[a:a + E2E_CHUNK], a, timeout, tag)
+    finally:
+        if was:
+            gc.enable()
+    ctx.obligation("end-to-end: real SynReactor (implicit path; all / comp / bt; both directions; template as written and renumbered) == composed "
+                   "Lean reactor `concrete 5040 (compSearch true 5000)` of C05.statement_concrete on the recorded graphs: raw match sets equal, "
+                   "ITS iso-class sets equal, kept matches satisfy PruneSpec", bad == 0)
+
+
+def _e2e_chunk(ctx, pool, cases, offset, timeout, tag):
+    tasks, meta = [], []
+    for i, case in enumerate(cases):
+        for opposite in (False, True):
+            inv = bool(case["invert"]) != opposite
+            templates = [["as-written", case["template"]]]
+            if not opposite and case.get("tseeds"):
+                # the same rule under another numbering that keeps the label set of the pattern, applied next in the same interpreter
+                try:
+                    templates.append(["renumbered", permute_maps(case["template"], "centre" if case["core"] else "element", case["tseeds"][0])])
+                except Exception:  # noqa: BLE001 - RewriteFailed / RDKit: the harness could not rewrite the template, variant not used
+                    ctx.count(f"{tag}:renumbered_variant_not_available")
+            tasks.append({"key": f"{tag}{offset + i}:{int(opposite)}", "templates": templates, "core": case["core"], "invert": inv,
+                          "substrate": case["substrate"], "strategies": list(C.STRATEGIES), "timeout": timeout})
+            meta.append((case, inv, opposite))
+    results = pool.run(tasks, e2e_task)
+    reqs, owners = [], []
+    for (case, inv, opposite), res in zip(meta, results):
+        if res["status"] != "ok":
+            ctx.count(f"{tag}:status:" + res["status"].split(":")[0])
+            if res["status"].startswith("error"):
+                ctx.count("impl_exception:" + res["status"][6:])
+        for r in res["variants"]:
+            ctx.count(f"{tag}:status:" + r["status"])
+            if r["status"] != "ok" or len(r["runs"]) != len(C.STRATEGIES):
+                continue
+            _e2e_requests(reqs, owners, case, inv, opposite, r)
+    return _e2e_judge(ctx, pool, reqs, owners, timeout, tag)
+
+
+def _e2e_requests(reqs, owners, case, inv, opposite, r):
+    """Per strategy: the composed Lean reactor on the recorded graphs, and the PruneSpec verdict on what the implementation kept."""
+    for strat in C.STRATEGIES:
+        reqs.append({"cmd": "reactor.results", "host": r["host"], "template": r["tpl"], "invert": inv, "strategy": strat, "strict": True})
+        pr = r["runs"][strat]["prune"]
+        if pr is not None:
+            reqs.append(dict(cmd="rinv.prune_spec", keep=pr["keep"], group=pr["group"], matches=pr["raw_ordered"], kept=pr["kept_ordered"]))
+    owners.append((case, inv, opposite, r))
+
+
+def _e2e_judge(ctx, pool, reqs, owners, timeout, tag):
+    answers = iter(ctx.lean().ok(reqs, shards=8))
+    # second round: the isomorphism questions left open by exact comparison
+    iso_reqs, evals = [], []
+    for case, inv, opposite, r in owners:
+        per = {}
+        for strat in C.STRATEGIES:
+            run, mod = r["runs"][strat], next(answers)
+            spec_ok = next(answers) if run["prune"] is not None else None
+            ci, cm = _classes(run["its"]), _classes(mod["its"])
+            open_q = []   # (side, key, [candidate keys on the other side])
+            for side, mine, other in (("impl", ci, cm), ("model", cm, ci)):
+                for k, view in mine.items():
+                    if k not in other:   # no equal graph on the other side: candidates are the graphs there with the same label statistics
+                        inv_k = _its_invariant(view)
+                        open_q.append((side, k, [k2 for k2, v2 in other.items() if _its_invariant(v2) == inv_k]))
+            n_iso = sum(len(c) for _, _, c in open_q)
+            capped = n_iso > E2E_MAX_ISO
+            slots = []
+            if not capped:
+                for side, k, cands in open_q:
+                    mine, other = (ci, cm) if side == "impl" else (cm, ci)
+                    idx = []
+                    for k2 in cands:
+                        idx.append(len(iso_reqs))
+                        iso_reqs.append(dict(cmd="match.iso", host=other[k2], pattern=mine[k], **ISO_SEL))
+                    slots.append((side, k, idx))
+            per[strat] = {"run": run, "mod": mod, "spec_ok": spec_ok, "ci": ci, "cm": cm, "slots": slots, "capped": capped}
+        evals.append((case, inv, opposite, r, per))
+    iso_ans = ctx.lean().ok(iso_reqs, shards=8)
+    ctx.count(f"{tag}:match.iso_questions", len(iso_reqs))
+    bad = 0
+    for case, inv, opposite, r, per in evals:
+        pub = dict(case_public(dict(case, invert=inv)), stream="e2e")
+        if r["label"] != "as-written":
+            pub["template_applied"] = r["template"]   # the second call of the task: the same rule, renumbered
+        ctx.count(f"{tag}:template_written:" + r["label"])
+        n_raw_all = len(per["all"]["run"]["raw"])
+        n_its_all = len(per["all"]["run"]["its"])
+        ctx.count(f"{tag}:pairs_evaluated")
+        ctx.count(f"{tag}:origin:{case.get('origin', '?')}")
+        ctx.count(f"{tag}:direction:" + ("opposite" if opposite else "own") + (":backward" if inv else ":forward"))
+        ctx.count(f"{tag}:template:" + ("centre" if case["core"] else "full_its"))
+        ctx.count(f"{tag}:raw_matches_all:" + ("0" if n_raw_all == 0 else "1" if n_raw_all == 1 else "2-9" if n_raw_all <= 9 else "10+"))
+        ctx.case(pub, nontrivial=n_raw_all >= 1 and n_its_all >= 1,
+                 sample={"stream": tag, "name": case.get("name"), "substrate": case["substrate"], "invert": inv,
+                         "raw_matches": n_raw_all, "its": n_its_all} if n_its_all >= 2 else None)
+        findings = []   # (what, detail)
+        spec_failed = False
+        for strat in C.STRATEGIES:
+            e = per[strat]
+            run, mod = e["run"], e["mod"]
+            ctx.count(f"{tag}:runs_compared")
+            if not (mod["wf_host"] and mod["wf_tpl"]):
+                ctx.count(f"{tag}:model_guard_false(wf_host={mod['wf_host']},wf_tpl={mod['wf_tpl']})")
+            where = {"strategy": strat, "name": case.get("name"), "origin": case.get("origin"), "direction": "opposite" if opposite else "own",
+                     "template_written": r["label"], "template_applied": r["template"],
+                     "host_nodes": r["host_nodes"], "pattern_nodes": r["pattern_nodes"], "wf_host": mod["wf_host"], "wf_tpl": mod["wf_tpl"]}
+            if e["spec_ok"] is not None:
+                ctx.count(f"{tag}:prune_spec_evaluated")
+                if run["n_kept"] < len(run["raw"]):
+                    ctx.count(f"{tag}:prune_spec_evaluated_where_something_was_pruned")
+                if not e["spec_ok"]:
+                    spec_failed = True
+                    bad += 1
+                    ctx.violation("symmetry pruning dropped a match that is not related to any kept match by an automorphism of the rule (PruneSpec violated)",
+                                  dict(pub, strategy=strat), dict(where, raw=len(run["raw"]), impl_kept=run["n_kept"], model_kept=len(mod["kept"])))
+            ctx.count(f"{tag}:kept_matches_impl_vs_model:" + ("equal" if run["n_kept"] == len(mod["kept"]) else "differ (not gated)"))
+            if run["raw"] != mod["raw"]:
+                findings.append(("(a) raw match set of the real SynReactor differs from the composed Lean reactor's",
+                                 dict(where, impl=len(run["raw"]), model=len(mod["raw"]),
+                                      only_impl=[m for m in run["raw"] if m not in mod["raw"]][:3],
+                                      only_model=[m for m in mod["raw"] if m not in run["raw"]][:3])))
+            if e["capped"]:
+                ctx.count(f"{tag}:its_comparison_skipped(too many isomorphism questions)")
+                continue
+            lonely = {"impl": 0, "model": 0}
+            for side, k, idx in e["slots"]:
+                if not any(iso_ans[i] for i in idx):
+                    lonely[side] += 1
+            ctx.count(f"{tag}:its_classes_settled_by:" + ("exact equality" if not e["slots"] else "match.iso"))
+            if lonely["impl"] or lonely["model"]:
+                findings.append(("(b) ITS graphs of the real SynReactor and of the composed Lean reactor are not the same set of isomorphism classes",
+                                 dict(where, impl_its=len(run["its"]), model_its=len(mod["its"]), impl_distinct=len(e["ci"]), model_distinct=len(e["cm"]),
+                                      impl_without_partner=lonely["impl"], model_without_partner=lonely["model"],
+                                      impl_kept=run["n_kept"], model_kept=len(mod["kept"]), raw=len(run["raw"]))))
+        if not findings:
+            continue
+        # a mismatch with a failing gate on the same (template, substrate, direction) has a failing input; otherwise the correspondence broke
+        gate_case = dict(case, invert=inv)
+        gts, grs = None, None
+        try:
+            gts = tasks_of(gate_case, "e2egate", max(timeout, 30.0))
+            grs = pool.run(gts)
+            gates = sorted({w.split(" ")[0] for w, _ in judge(gate_case, gts, grs)})
+        except Exception as exc:  # noqa: BLE001 - the gates could not be evaluated: treated as not failing
+            gates = []
+            ctx.count(f"{tag}:gates_not_evaluable:" + type(exc).__name__)
+        if spec_failed:
+            gates.append("PruneSpec")
+        seen = set()
+        for what, detail in findings:
+            if what in seen:
+                continue
+            seen.add(what)
+            bad += 1
+            ctx.count(f"{tag}:mismatch:" + what[:3] + (":with_failing_gate" if gates else ":correspondence"))
+            ctx.violation(what + (" [gates failing on the same case: " + ", ".join(gates) + "]" if gates else ""),
+                          pub, dict(detail, failing_gates=gates), no_input=not gates)
+    return bad
 
 
 # ============================================================================= in-process histories
@@ -1189,5 +1564,7 @@ def replay(ctx, case):
     try:
         c.setdefault("name", "replay")
         run_cases(ctx, pool, [c], 120.0, "replay", shrink=False)
+        if c.get("stream") == "e2e":
+            e2e_stream(ctx, pool, [dict(c, origin="replay")], 120.0)
     finally:
         pool.close()
